@@ -91,7 +91,7 @@ def cases(seed, tier):
     q = tier == 'quick'
     # catalogue sizes: the small ones and one of 200
     nsrcs = [1, 2, 5, 12, 30, 60, 200] if q else [1, 2, 3, 5, 8, 12, 20, 30, 45, 60, 100, 200]
-    reps = 1 if q else 3
+    reps = 1 if q else 6
     k = 0
     for proj in wz.PROJECTIONS:
         for rep in range(reps):
@@ -109,7 +109,7 @@ def cases(seed, tier):
         out.append(c)
     for proj in wz.PROJECTIONS:
         for mode in ('frac', 'sigma'):
-            for rep in range(1 if q else 4):
+            for rep in range(1 if q else 8):
                 rng = rng_for(seed, 'c14mask', proj, mode, rep)
                 c = {'kind': 'mask', 'mode': mode, 'nsrc': int(rng.integers(1, 25)), 'seed': [seed, 'mask', proj, mode, rep]}
                 c.update(_header_params(rng, k, proj))
@@ -117,14 +117,14 @@ def cases(seed, tier):
                 k += 1
     fmts = ['csv', 'fits', 'vot']
     for t, proj in enumerate(wz.PROJECTIONS):
-        for rep in range(1 if q else 3):
+        for rep in range(1 if q else 6):
             rng = rng_for(seed, 'c14files', proj, rep)
             c = {'kind': 'files', 'fmt': fmts[(t + rep) % 3], 'nsrc': int(rng.integers(1, 20)),
                  'seed': [seed, 'files', proj, rep]}
             c.update(_header_params(rng, k, proj))
             out.append(c)
             k += 1
-    nloop = 10 if q else 40
+    nloop = 10 if q else 80
     for t in range(nloop):
         proj = wz.PROJECTIONS[t % 5]
         rng = rng_for(seed, 'c14loop', t)
